@@ -26,6 +26,10 @@ Oracle (the property's own statement, independent of the model):
 The oracle compares values, exceptions and the id() graph of the mutable objects (dict, list, deque, bytearray, set and
 their subclasses, the user objects of this module, through tuples / frozensets / items / attributes); it does not
 compare private attributes of the elements, nor the classes of objects (values are rendered by content).
+A Split or a Zip may itself be a branch (given directly, not inside a tuple or a sequence object): kind "nest".  The values
+it yields are values of that branch; they are compared with those of an identical nested object alone.  The sequences of
+a nested Split end with the Mark of the outer branch; a nested Zip yields merged values, recorded by wrapping the public
+compute / request attribute of the Zip instance (as Zip.__init__ sets it).  These cases have no model run.
 The harness drives lena through its public interface only (Split(...).run / fill / compute / request, Zip(...).fill,
 the public sequence classes); the one private name it reads, defensively, is the list in which a Zip keeps the
 sequences it made of plain tuples (_zip_seqs; see ASSUMPTIONS).
@@ -54,10 +58,10 @@ from harness.common import exc_name
 
 PID = "C04"
 TITLE = "Context non-interference between Split branches and across accumulators"
-LEAN_MODULES = ["LenaModel.Props.C04"]
+LEAN_MODULES = ["LenaModel.Props.C04", "LenaModel.Props.C04Nest"]
 LEAN_SOURCES = ["LenaModel/Model/C04.lean", "LenaModel/Model/C04Spec.lean", "LenaModel/Lemmas/C04.lean", "LenaModel/Lemmas/C04Alone.lean",
                 "LenaModel/Lemmas/C04Local.lean", "LenaModel/Lemmas/C04Fill.lean", "LenaModel/Lemmas/C04Purpose.lean",
-                "LenaModel/Lemmas/C04Hist.lean", "LenaModel/Props/C04.lean"]
+                "LenaModel/Lemmas/C04Hist.lean", "LenaModel/Props/C04.lean", "LenaModel/Props/C04Nest.lean"]
 DRIVER = "drivers/C04.lean"
 # the theorems that carry the property
 THEOREMS = [
@@ -72,6 +76,9 @@ THEOREMS = [
     "Lena.C04.harness_branches_local",
     "Lena.C04.harness_branch_alone_equiv",
     "Lena.C04.harness_no_exception",
+    # a Split nested directly as a branch: whatever copy_buf, its last sequence works on the objects it was handed
+    # (so the Split around it must copy for it as for any other branch)
+    "Lena.C04.splitFill_last_gets_original",
     # sentence 2: every yielded context is new (all histories)
     "Lena.C04.acc_yield_fresh",
     "Lena.C04.accOps_freshYield",
@@ -103,6 +110,8 @@ AUX_THEOREMS = [
     "Lena.C04.schedOKb_iff",
     "Lena.C04.fillOKb_iff",
     "Lena.C04.listEqb_iff",
+    "Lena.C04.fillOne_false_evs",
+    "Lena.C04.splitFill_first_flag",
     "Lena.C04.withReset_req",
     "Lena.C04.withReset_upd",
     # the user mutators touch / touchc are visible on every container they reach
@@ -159,8 +168,19 @@ ASSUMPTIONS = [
     "the static context (LenaSplit._set_context / _get_context, deep-copied per branch) is outside C04 (subject of C13); "
     "Split.__call__ (Source branches at the head of a flow) is not exercised",
     "one run per Split object (state kept between two runs of one Split object is covered by the generic theorems only: "
-    "they hold from any branch state); no nested Split/Zip as a branch in split cases (as an accumulator: split_fc, zip, "
-    "Mean(Split), Vectorize(Mean(Split)), SplitIntoBins(Split))",
+    "they hold from any branch state)",
+    "a Split / Zip given DIRECTLY as a branch of the Split / Zip of a case (kind \"nest\": of one common type — then it has "
+    "fill and compute / request —, or of mixed sequences — then it is a Run element, run on every buffer; with and "
+    "without copy_buf, nested twice) is exercised on the real code and judged by the oracle (the nested object inside "
+    "versus the same object alone on a private deep copy; no object shared between the values of different outer "
+    "branches). For the model such an object is one branch (`Ops`): the generic theorems speak about it under the "
+    "hypothesis `Local`, which names ONE namespace of own objects, while the transcription of a Split as an object "
+    "(splitAccOps) allocates in one namespace per inner sequence — so there is no executable instance of a nested "
+    "branch, no correspondence run for these cases (copy_buf=False on the outer level is therefore not generated for "
+    "them), and `Local` for a nested Split is an assumption (true of the code for the reason it is true of any "
+    "element: it touches only what it is passed and what it made). splitFill_last_gets_original proves the fact that "
+    "makes the outer copy necessary. Within the model a Split as an accumulator stays covered: split_fc, zip, "
+    "Mean(Split), Vectorize(Mean(Split)), SplitIntoBins(Split)",
     "the FillRequest adapter (lena.core.FillRequest around a fill/compute element; request() yields values computed "
     "during an earlier fill when buffer_output is set) has no model: it is covered by the oracle on the real code only "
     "(identity of yielded contexts, mutated run versus twin). downstream_updates_harmless is proved for the accumulators "
@@ -192,7 +212,12 @@ RULE = ("split cases: 0-4 branches of the four kinds (given as explicit sequence
         "with nested contexts incl. tuples of dicts and lists of dicts, with list or dict data), bufsize in "
         "{1,2,3,len,len+1,1000,None}, driven by run, by fill+compute/request and through Zip(...).fill; Split built with and "
         "without the copy_buf keyword (default); copy_buf=False and aliased flows for the correspondence only; every branch "
-        "starts with a probe that records whether it was handed the caller's objects. Objects: data and contexts are "
+        "starts with a probe that records whether it was handed the caller's objects. A Split (without copy_buf, "
+        "copy_buf=True, copy_buf=False) or a Zip given DIRECTLY as a branch — first, middle, last position, two side by "
+        "side, nested twice; all its sequences fill/compute or all fill/request (used through fill + compute/request by "
+        "an outer Split driven by run, by fill and by an outer Zip) or mixed (a Run element); its first and its LAST "
+        "inner sequence changing data and context in place — is enumerated in both tiers (nest_cases, 648 cases) and "
+        "drawn at random (about a fifth of the split cases); oracle only. Objects: data and contexts are "
         "dict / list / tuple / scalars and, named by class in the case, user objects with mutable attributes (instance "
         "dictionary, slots; hashable), dict subclasses (lena.context.Context, OrderedDict, user class), list subclass, deque, "
         "bytearray, set / frozenset of user objects, tuples and namedtuples holding mutable objects, dictionaries nested 8 deep, nested in each other (data_shapes: 18 "
@@ -818,6 +843,8 @@ def build_branch(i, sp, log, probe=None):
     elements that Split / Zip convert themselves"""
     import lena.core
     kind = sp["kind"]
+    if kind == "nest":
+        return build_nest(i, sp, log, probe)
     mark = Mark(i, log)
     front = [probe] if probe is not None else []
     as_tuple = sp.get("form") == "tuple"
@@ -835,6 +862,69 @@ def build_branch(i, sp, log, probe=None):
     if kind == "fr":
         return lena.core.FillRequestSeq(*els, bufsize=1, reset=False, buffer_input=True)
     raise ValueError(kind)
+
+
+def _logged(meth, i, log):
+    """the generator method `meth` (compute / request of a Zip), recording every value it yields as a value yielded
+    on behalf of branch i (what Mark does at the end of a sequence)"""
+    def gen():
+        for val in meth():
+            log.append((i, copy.deepcopy(val)))
+            yield val
+    return gen
+
+
+def nest_type(sp):
+    """the type a Split / Zip nested directly as a branch has for the Split / Zip around it: "fc" (all its sequences
+    are fill/compute: it has fill and compute), "fr" (all fill/request), else "seq" (a Split of mixed sequences has
+    only run: the outer Split makes a Sequence of it)"""
+    if sp["kind"] != "nest":
+        return sp["kind"]
+    ts = set(nest_type(x) for x in sp["inner"])
+    if ts == {"fc"} or ts == {"fr"}:
+        return ts.pop()
+    return "seq"
+
+
+def build_nest(i, sp, log, probe=None):
+    """a Split or a Zip given DIRECTLY as branch number i of the Split / Zip of the case (not inside a tuple or a
+    sequence object).  Every value it yields is a value of branch i: the sequences of a nested Split end with the
+    Mark of branch i; a nested Zip yields new (merged) values, recorded where its public compute / request yields
+    them.  The probe of branch i stands at the head of the first inner sequence (which receives every value the
+    nested object is given); the other inner sequences have probes of their own, which nobody reads."""
+    import lena.core
+    import lena.flow
+    is_zip = bool(sp.get("zip"))
+    inner = []
+    for j, isp in enumerate(sp["inner"]):
+        p = None
+        if probe is not None:
+            p = probe if j == 0 else Probe(0, [[]], probe._orig)
+        inner.append(build_branch(i, isp, [] if is_zip else log, p))
+    if is_zip:
+        z = lena.flow.Zip(inner)
+        for name in ("compute", "request"):
+            meth = getattr(z, name, None)
+            if callable(meth):
+                setattr(z, name, _logged(meth, i, log))
+        return z
+    kw = {}
+    if sp.get("copy_buf") is not None:
+        kw["copy_buf"] = sp["copy_buf"]
+    if sp.get("bufsize", 1000) != 1000:
+        kw["bufsize"] = sp["bufsize"]
+    return lena.core.Split(inner, **kw)
+
+
+def all_steps(sp):
+    """the mutating elements of a branch, those of the sequences of a nested Split / Zip included"""
+    if sp["kind"] == "nest":
+        return [st for x in sp["inner"] for st in all_steps(x)]
+    return list(sp["steps"])
+
+
+def has_nest(case):
+    return any(b["kind"] == "nest" for b in case["branches"])
 
 
 # ----------------------------------------------------------------------------------------------
@@ -1323,11 +1413,31 @@ def run_impl(case):
 def model_requests(case):
     # the model is given the contents of the objects, not their classes (strip)
     if case["op"] == "split":
-        return [dict({k: case[k] for k in ("op", "mode", "branches", "bufsize", "copy_buf", "flow")},
-                     heap=strip(case["heap"]), check=True)]
+        if has_nest(case) and not nest_modelled(case):
+            return []
+        return [dict({k: case[k] for k in ("op", "mode", "bufsize", "copy_buf", "flow")},
+                     branches=[_model_branch(b) for b in case["branches"]], heap=strip(case["heap"]), check=True)]
     if case["acc"]["a"] in ORACLE_ONLY:
         return []
     return [{"op": "acc", "acc": model_acc(case["acc"]), "heap": strip(case["heap"]), "hist": model_hist(case)}]
+
+
+def nest_modelled(case):
+    """the nested cases the model driver can express: Splits / Zips of one common type (fill/compute or fill/request)
+    given directly as branches, their sequences being plain harness sequences (one level of nesting).  Not a nested
+    Zip (its compute merges the values of its sequences), not a Split of mixed sequences (a Run element)"""
+    for b in case["branches"]:
+        if b["kind"] == "nest":
+            if b.get("zip") or nest_type(b) not in ("fc", "fr") or any(x["kind"] == "nest" for x in b["inner"]):
+                return False
+    return True
+
+
+def _model_branch(b):
+    """a branch as the model driver is given it: a nested Split with its common type and its copy_buf (default True)"""
+    if b["kind"] != "nest":
+        return b
+    return {"kind": "nest", "ctype": nest_type(b), "copy_buf": b.get("copy_buf") is not False, "inner": b["inner"]}
 
 
 def _norm_data(kind, dj, case):
@@ -1358,7 +1468,9 @@ def compare(case, res, replies):
         chk = m.get("check")
         if chk:
             for i, cb in enumerate(chk["branches"]):
-                if cb["fills"] != res["fills"][i]:
+                # (the probe of a nested Split stands in its first inner sequence, behind the copy the nested Split
+                # itself makes: it does not tell what the outer Split handed over)
+                if case["branches"][i]["kind"] != "nest" and cb["fills"] != res["fills"][i]:
                     return ("branch %d: the model's fill/run events say copies %s, the probe in the real run saw %s"
                             % (i, cb["fills"], res["fills"][i]))
             if case["copy_buf"] and not case.get("aliased"):
@@ -1450,6 +1562,9 @@ def oracle(case, res):
 
 
 def _show_branch(sp):
+    if sp["kind"] == "nest":
+        return "%s(%s)" % ("Zip" if sp.get("zip") else "Split[copy_buf=%s]" % sp.get("copy_buf"),
+                           " | ".join(_show_branch(x) for x in sp["inner"]))
     return "%s[%s%s]" % (sp["kind"], ",".join(s["s"] + str(s.get("name", s.get("n", s.get("v", "")))) for s in sp["steps"]),
                         "" if sp.get("term") is None else ";" + sp["term"]["a"])
 
@@ -1500,6 +1615,41 @@ def gen_branch(rng, kind=None, nsteps=None, lists=False):
     if rng.random() < 0.25 and not (kind == "seq" and any(st["s"] == "count" for st in steps)):
         sp["form"] = "tuple"
     return sp
+
+
+def gen_nest(rng, ctype=None, lists=False, depth=1):
+    """a Split or a Zip given directly as a branch: of one common type (all its sequences fill/compute, or all
+    fill/request: the object has fill and compute / request), or — ctype "seq" — a Split of mixed sequences, which has
+    only run.  With and without the copy_buf keyword, with copy_buf=False, occasionally nested once more."""
+    ctype = ctype or rng.choice(["fc", "fc", "fr", "seq"])
+    n = rng.randint(1, 3)
+    if ctype == "seq":
+        kinds = [rng.choice(["fc", "fr", "seq", "seq", "source"]) for _ in range(n)]
+        if set(kinds) <= {"fc", "source"} or set(kinds) <= {"fr", "source"}:
+            kinds.insert(rng.randint(0, len(kinds)), "seq")
+    else:
+        kinds = [ctype] * n
+    inner = []
+    for k in kinds:
+        if depth < 2 and k != "source" and rng.random() < 0.12:
+            inner.append(gen_nest(rng, k, lists, depth + 1))
+        else:
+            inner.append(gen_branch(rng, k, lists=lists))
+    # in-place mutation in the LAST inner sequence is what a missing copy for the nested object shows by
+    if inner[-1]["kind"] in ("fc", "fr", "seq") and not inner[-1]["steps"] and rng.random() < 0.7:
+        inner[-1]["steps"] = [gen_step(rng, inner[-1]["kind"], False)]
+    sp = {"kind": "nest", "zip": ctype != "seq" and rng.random() < 0.3, "inner": inner, "steps": [], "term": None,
+          "copy_buf": rng.choice([None, None, True, False])}
+    if ctype == "seq" and rng.random() < 0.5:
+        sp["bufsize"] = rng.choice([1, 2, None])
+    return sp
+
+
+def _may_raise(b):
+    if b["kind"] == "nest":
+        # (a Zip raises TypeError in update_nested on a context that already has a "zip" entry: see ASSUMPTIONS)
+        return bool(b.get("zip")) or any(_may_raise(x) for x in b["inner"])
+    return bool(b.get("term") and b["term"].get("poe") is False)
 
 
 def _deep(i, depth=8):
@@ -1631,11 +1781,22 @@ def gen_split_case(rng, mode=None, aliased=None, copy_buf=None):
         nb = rng.randint(1, 3)
         branches = [gen_branch(rng, kind, lists=lists) for _ in range(nb)]
     copy_buf = (rng.random() < 0.85) if copy_buf is None else copy_buf
+    if branches and rng.random() < 0.2:
+        # a Split / Zip given directly as a branch (in any position; sometimes two of them)
+        for _ in range(1 if rng.random() < 0.8 else 2):
+            j = rng.randrange(len(branches))
+            if mode != "run":
+                branches[j] = gen_nest(rng, kind, lists)
+            elif branches[j]["kind"] != "source":
+                branches[j] = gen_nest(rng, nest_type(branches[j]) if rng.random() < 0.7 else None, lists)
+        if has_nest({"branches": branches}) and not nest_modelled({"branches": branches, "mode": mode}):
+            # judged by the oracle only, which speaks about copy_buf=True and alias-free flows
+            copy_buf = True
     bufsize = rng.choice([1, 2, 3, max(n, 1), n + 1, 1000, None])
     return {"op": "split", "mode": mode, "branches": branches, "bufsize": bufsize, "copy_buf": copy_buf,
             "heap": heap, "flow": flow, "aliased": aliased, "nokw": rng.random() < 0.6,
             # a Mean that is never filled raises LenaZeroDivisionError and ends the whole run
-            "may_raise": any(b.get("term") and b["term"].get("poe") is False for b in branches)}
+            "may_raise": any(_may_raise(b) for b in branches)}
 
 
 _SUM, _CNT = {"a": "sum"}, {"a": "count", "name": "n"}
@@ -1859,6 +2020,108 @@ def kind_cases():
     return out
 
 
+def nest_cases():
+    """a Split / Zip given DIRECTLY as a branch of the Split / Zip of the case, systematically: in first, middle and
+    last position and two side by side; as a Split without the copy_buf keyword, with copy_buf=True and False, as a
+    Zip; of the common types fill/compute and fill/request and of mixed sequences (a Run element then); its last
+    and its first inner sequence changing data and context in place; the outer object driven by run (several
+    bufsizes), by fill + compute / request and as a Zip; nested twice."""
+    out = []
+
+    def T(v):
+        return {"s": "touch", "v": v}
+
+    def TC(v):
+        return {"s": "touchc", "v": v}
+
+    def br(kind, steps, term=None):
+        return {"kind": kind, "steps": steps, "term": term}
+
+    V = {"s": "var", "name": "a"}
+    TAG = {"s": "tag", "name": "t"}
+    UPD = {"s": "upd", "key": "k", "v": 2}
+    MK = {"s": "mkfn", "name": "f"}
+    CNT = {"s": "count", "name": "c"}
+    SUM, STORE, KEEP = {"a": "sum"}, {"a": "store"}, {"a": "keeplast"}
+    inner_sets = {
+        "fc": [
+            ([br("fc", [], SUM), br("fc", [V], SUM)], True),
+            ([br("fc", [TC(1)], STORE), br("fc", [TAG, UPD, T(3)], KEEP)], False),
+            ([br("fc", [MK, CNT], {"a": "count", "name": "n"})], True),
+            ([br("fc", [V, T(1)], STORE), br("fc", [], KEEP), br("fc", [TC(4)], STORE)], False),
+        ],
+        "fr": [
+            ([br("fr", [], {"a": "reqsum"}), br("fr", [V, TC(1)], {"a": "reqsum"})], True),
+            ([br("fr", [T(1)], {"a": "reqstore"}), br("fr", [TAG, T(2)], {"a": "reqstore"})], False),
+        ],
+    }
+    siblings = {
+        "fc": lambda numeric: [br("fc", [], SUM if numeric else STORE), br("fc", [TC(2), T(2)], STORE)],
+        "fr": lambda numeric: [br("fr", [], {"a": "reqsum"} if numeric else {"a": "reqstore"}),
+                               br("fr", [TC(2), T(2)], {"a": "reqstore"})],
+    }
+    variants = [{"zip": False, "copy_buf": None}, {"zip": False, "copy_buf": True}, {"zip": False, "copy_buf": False},
+                {"zip": True, "copy_buf": None}]
+
+    def flow_of(numeric):
+        heap, flow = {}, []
+        for i in range(3):
+            if numeric:
+                heap[str(i)] = enc({"n": {"i": i}, "lst": [i]})
+                flow.append({"d": i + 1, "c": i})
+            else:
+                heap[str(2 * i)] = data_shapes(i)[(0, 2, 1)[i]]
+                heap[str(2 * i + 1)] = enc({"n": {"i": i}})
+                flow.append({"d": {"cell": 2 * i}, "c": 2 * i + 1 if i != 1 else None})
+        return heap, flow
+
+    def case(mode, branches, bufsize, heap, flow, nokw):
+        return {"op": "split", "mode": mode, "branches": branches, "bufsize": bufsize, "copy_buf": True,
+                "heap": heap, "flow": flow, "aliased": False, "nokw": nokw}
+
+    k = 0
+    for ctype in ("fc", "fr"):
+        for inner, numeric in inner_sets[ctype]:
+            heap, flow = flow_of(numeric)
+            sib = siblings[ctype](numeric)
+            for var in variants:
+                nest = dict({"kind": "nest", "inner": inner, "steps": [], "term": None}, **var)
+                other = dict(nest, inner=list(reversed(inner)))
+                layouts = [[nest, sib[0]], [sib[1], nest, sib[0]], [sib[0], nest], [nest, other, sib[0]]]
+                for branches in layouts:
+                    for mode, bufsize in (("run", 1), ("run", 2), ("run", None), ("fill", 1000), ("zip", 1000)):
+                        k += 1
+                        out.append(case(mode, branches, bufsize, heap, flow, bool(k % 2)))
+                    if not var["zip"]:
+                        # copy_buf=False on the outer level (both values on both levels): for the correspondence
+                        for mode, bufsize in (("run", 2), ("fill", 1000)):
+                            out.append(dict(case(mode, branches, bufsize, heap, flow, False), copy_buf=False))
+    # a Split of mixed sequences as a branch: a Run element, run on every buffer of the Split around it
+    mixed_sets = [
+        [br("seq", [TC(1)]), br("fc", [V], SUM)],
+        [br("seq", [TAG, CNT]), {"kind": "source", "steps": [], "term": None, "n": 1}, br("fr", [T(1), UPD], {"a": "reqstore"})],
+    ]
+    for mi, inner in enumerate(mixed_sets):
+        heap, flow = flow_of(mi == 0)
+        for cb in (None, True, False):
+            for ibuf in (1000, 1):
+                nest = {"kind": "nest", "zip": False, "copy_buf": cb, "bufsize": ibuf, "inner": inner, "steps": [], "term": None}
+                sib = [br("seq", [TC(2), T(2)]), br("fc", [], SUM if mi == 0 else STORE)]
+                for branches in ([nest, sib[1]], [sib[0], nest, sib[1]], [sib[1], nest], [nest, sib[0]]):
+                    for bufsize in (1, 2, None):
+                        out.append(case("run", branches, bufsize, heap, flow, True))
+    # nested twice
+    heap, flow = flow_of(True)
+    inner2 = {"kind": "nest", "zip": False, "copy_buf": None, "steps": [], "term": None,
+              "inner": [br("fc", [], SUM), br("fc", [V], SUM)]}
+    for var in variants:
+        mid = dict({"kind": "nest", "steps": [], "term": None, "inner": [inner2, br("fc", [TC(1)], SUM)]}, **var)
+        for branches in ([mid, br("fc", [], SUM)], [br("fc", [], SUM), mid, br("fc", [], STORE)]):
+            for mode, bufsize in (("run", 2), ("fill", 1000), ("zip", 1000)):
+                out.append(case(mode, branches, bufsize, heap, flow, True))
+    return out
+
+
 def gen_cases(ctx):
     """a generator: the thorough tier is enumerated lazily"""
     rng = ctx.rng
@@ -1868,6 +2131,9 @@ def gen_cases(ctx):
         yield c
     # every kind of object as data and inside contexts
     for c in kind_cases():
+        yield c
+    # a Split / Zip given directly as a branch
+    for c in nest_cases():
         yield c
     # accumulators: all short histories
     maxlen = 5 if thorough else 4
@@ -1914,7 +2180,7 @@ def nontrivial(case, res):
     if "e" in res:
         return False
     outs = res.get("outs", [])
-    return any(o["c"] is not None for o in outs) and (case["op"] == "acc" or any(b["steps"] for b in case["branches"]))
+    return any(o["c"] is not None for o in outs) and (case["op"] == "acc" or any(all_steps(b) for b in case["branches"]))
 
 
 def classify(case, res):
@@ -1923,10 +2189,18 @@ def classify(case, res):
                   "branches=%d" % len(case["branches"])]
         if case.get("aliased"):
             labels.append("aliased-flow")
-        for b in case["branches"]:
+        nb = len(case["branches"])
+        for pos, b in enumerate(case["branches"]):
             labels.append("kind:" + b["kind"])
-            for s in b["steps"]:
+            for s in all_steps(b):
                 labels.append("step:" + s["s"])
+            if b["kind"] == "nest":
+                what = "zip" if b.get("zip") else "split(copy_buf=%s)" % b.get("copy_buf")
+                labels.append("nest:%s:%s:%s" % (what, nest_type(b), "last" if pos == nb - 1 else "not-last"))
+                if any(x["kind"] == "nest" for x in b["inner"]):
+                    labels.append("nest:depth>=2")
+                if b["inner"] and all_steps(b["inner"][-1]):
+                    labels.append("nest:last-inner-mutates:" + ("last" if pos == nb - 1 else "not-last"))
         labels += sorted("object:" + k for k in kinds_in(case["heap"]))
         if "e" in res:
             labels.append("split:raised:" + res["e"])
@@ -1960,6 +2234,21 @@ def signature(case, failure):
     return "acc:%s:%s" % (jshort(case["acc"]), "".join(sorted(k for op in case["hist"] for k in op if k in ("f", "c", "my", "mf", "rf", "reset"))))
 
 
+def _shrink_branch(b):
+    """smaller branches: one element less; for a nested Split / Zip one inner sequence less, or a smaller one"""
+    if b["kind"] == "nest":
+        for j in range(len(b["inner"])):
+            if len(b["inner"]) > 1:
+                cand = dict(b, inner=b["inner"][:j] + b["inner"][j + 1:])
+                if nest_type(cand) == nest_type(b):
+                    yield cand
+            for x in _shrink_branch(b["inner"][j]):
+                yield dict(b, inner=b["inner"][:j] + [x] + b["inner"][j + 1:])
+        return
+    for j in range(len(b["steps"])):
+        yield dict(b, steps=b["steps"][:j] + b["steps"][j + 1:])
+
+
 def shrink(case):
     if case["op"] == "split":
         if len(case["flow"]) > 0:
@@ -1969,8 +2258,7 @@ def shrink(case):
             if len(case["branches"]) > 1:
                 yield dict(case, branches=case["branches"][:i] + case["branches"][i + 1:])
             b = case["branches"][i]
-            for j in range(len(b["steps"])):
-                nb = dict(b, steps=b["steps"][:j] + b["steps"][j + 1:])
+            for nb in _shrink_branch(b):
                 yield dict(case, branches=case["branches"][:i] + [nb] + case["branches"][i + 1:])
         if case["bufsize"] not in (None, 1000):
             yield dict(case, bufsize=None)
